@@ -49,11 +49,11 @@ theorem ecWrite_inv {ed ed' : Ed} {loc cmd arg : Bytes} {r : Int} (h : EdInv ed)
             · split at hw
               · cases hw
               · rename_i err ed4 hs
-                have h4 : EdInv ed4 := edInv_of_bufs (lbufSave_bufs _ _ _ _ _ _ _ _ _ hs) h3
+                have h4 : EdInv ed4 := edInv_of_bufs (lbufSaveP_bufs _ _ _ _ _ _ _ _ _ hs) h3
                 cases hw
                 exact h4
               · rename_i ed4 hs
-                have h4 : EdInv ed4 := edInv_of_bufs (lbufSave_bufs _ _ _ _ _ _ _ _ _ hs) h3
+                have h4 : EdInv ed4 := edInv_of_bufs (lbufSaveP_bufs _ _ _ _ _ _ _ _ _ hs) h3
                 generalize hE : Ed.show ed4 _ = ed5 at hw
                 have h5 : EdInv ed5 := by rw [← hE]; exact h4
                 split at hw
@@ -150,11 +150,11 @@ theorem each_inv (cmd : Bytes) (all : Bool) : ∀ (g i : Nat) (ed ed' : Ed) (r :
             · split at h
               · cases h
               · rename_i hs
-                have h2 := edInv_of_bufs (lbufSave_bufs _ _ _ _ _ _ _ _ _ hs) h1
+                have h2 := edInv_of_bufs (lbufSaveP_bufs _ _ _ _ _ _ _ _ _ hs) h1
                 cases h
                 exact edInv_bufsSwitch _ h2
               · rename_i hs
-                have h2 := edInv_of_bufs (lbufSave_bufs _ _ _ _ _ _ _ _ _ hs) h1
+                have h2 := edInv_of_bufs (lbufSaveP_bufs _ _ _ _ _ _ _ _ _ hs) h1
                 exact ih _ _ _ _ h2 h
           · exact ih _ _ _ _ h1 h
 
